@@ -8,7 +8,8 @@ tier = a[a.index("--tier") + 1] if "--tier" in a else "quick"
 jobs = int(a[a.index("--jobs") + 1]) if "--jobs" in a else 4
 extra = {"C06-1": ["C14"], "C06-2": ["C09"], "C06-R2-1": ["C14"], "C13-R2-1": ["C09"], "C17-R3-2": ["C13"],
          "C17-R4-2": ["C13"], "C02-R4-1": ["C01", "C12"], "C05-R4-2": ["C08"], "C06-R4-1": ["C14"], "C06-R4-2": ["C05", "C08"], "C13-R4-1": ["C12"], "C09-R4-2": ["C07"], "C12-R4-2": ["C05"], "C18-R4-2": ["C01"],
-         "C06-R5-2": ["C05", "C08"], "C05-R5-1": ["C08"], "C15-R5-2": ["C12", "C01"], "C13-R5-1": ["C09"], "C14-R5-1": ["C06", "C07"], "C14-R5-2": ["C06", "C07"], "C12-R5-2": ["C01", "C16"], "C06-R5-1": ["C07", "C14"], "C11-R5-1": ["C01", "C15"], "C01-R5-1": ["C15"]}
+         "C06-R5-2": ["C05", "C08"], "C05-R5-1": ["C08"], "C15-R5-2": ["C12", "C01"], "C13-R5-1": ["C09"], "C14-R5-1": ["C06", "C07"], "C14-R5-2": ["C06", "C07"], "C12-R5-2": ["C01", "C16"], "C06-R5-1": ["C07", "C14"], "C11-R5-1": ["C01", "C15"], "C01-R5-1": ["C15"],
+         "C05-R6-1": ["C06", "C12"], "C05-R6-2": ["C12"], "C06-R6-1": ["C12"], "C07-R6-1": ["C12"], "C06-R6-2": ["C09"], "C09-R6-1": ["C12"], "C16-R6-1": ["C12"], "C16-R6-2": ["C12"], "C08-R6-1": ["C12"], "C20-R6-2": ["C12", "C13"], "C10-R6-1": ["C13"], "C15-R6-1": ["C01"], "C18-R6-1": ["C12"], "C03-R6-1": ["C12"], "C13-R6-2": ["C10"]}
 import queue
 slots = queue.Queue()
 for i in range(jobs):
